@@ -1,9 +1,52 @@
-//! Logging stub: every event macro expands to nothing, `#[instrument]` is the identity.
+//! Logging stub for symbolic execution: every event macro expands to a *scheduling point*
+//! and nothing else; `#[instrument]` is the identity.
+//!
+//! A scheduling point is a no-op unless a harness has armed it (`sched::arm()`); when armed it
+//! calls the harness-provided `verif_sched_point()` (defined `#[no_mangle]` in
+//! /verif/harness/mux/common.rs).  C12 uses this to run the connection task's
+//! `acknowledge` / `disallow_write` *between* two statements of the writer's poll, at the
+//! places where the real code logs.  Arguments of the macros are not evaluated.
 #![no_std]
 #[cfg(feature = "attributes")]
 pub use tracing_attributes::instrument;
-#[macro_export] macro_rules! trace { ($($t:tt)*) => {{}}; }
-#[macro_export] macro_rules! debug { ($($t:tt)*) => {{}}; }
-#[macro_export] macro_rules! info { ($($t:tt)*) => {{}}; }
-#[macro_export] macro_rules! warn { ($($t:tt)*) => {{}}; }
-#[macro_export] macro_rules! error { ($($t:tt)*) => {{}}; }
+
+pub mod sched {
+    use core::sync::atomic::{AtomicBool, AtomicUsize, Ordering};
+    static ARMED: AtomicBool = AtomicBool::new(false);
+    static POINTS: AtomicUsize = AtomicUsize::new(0);
+    unsafe extern "Rust" {
+        fn verif_sched_point(index: usize);
+    }
+    pub fn arm() {
+        POINTS.store(0, Ordering::Relaxed);
+        ARMED.store(true, Ordering::Relaxed);
+    }
+    pub fn disarm() {
+        ARMED.store(false, Ordering::Relaxed);
+    }
+    /// Number of scheduling points passed since `arm()`.
+    pub fn points() -> usize {
+        POINTS.load(Ordering::Relaxed)
+    }
+    #[inline(never)]
+    pub fn point() {
+        if ARMED.load(Ordering::Relaxed) {
+            let i = POINTS.fetch_add(1, Ordering::Relaxed);
+            // not re-entrant: the injected code may log as well
+            ARMED.store(false, Ordering::Relaxed);
+            unsafe { verif_sched_point(i) };
+            ARMED.store(true, Ordering::Relaxed);
+        }
+    }
+}
+
+#[macro_export]
+macro_rules! trace { ($($t:tt)*) => {{ $crate::sched::point(); }}; }
+#[macro_export]
+macro_rules! debug { ($($t:tt)*) => {{ $crate::sched::point(); }}; }
+#[macro_export]
+macro_rules! info { ($($t:tt)*) => {{ $crate::sched::point(); }}; }
+#[macro_export]
+macro_rules! warn { ($($t:tt)*) => {{ $crate::sched::point(); }}; }
+#[macro_export]
+macro_rules! error { ($($t:tt)*) => {{ $crate::sched::point(); }}; }
